@@ -253,6 +253,12 @@ func closeRule(c *Ctx, r *Report, rule string) {
 	})
 	// deferred closers
 	var closers []*ssa.Defer
+	type helperCloser struct {
+		h   *ssa.Function
+		k   ssa.CallInstruction
+		res ssa.Value
+	}
+	var helpers []helperCloser
 	eachInstr(fn, func(_ *ssa.BasicBlock, _ int, instr ssa.Instruction) {
 		d, ok := instr.(*ssa.Defer)
 		if !ok {
@@ -297,10 +303,27 @@ func closeRule(c *Ctx, r *Report, rule string) {
 				})
 			}
 		}
+		if !closes {
+			// ip_h1r5.go: the clean-up lives in a same-package function that is deferred directly or called
+			// by the deferred literal: it must close the connection it is handed, on every path
+			if h, k, resHere := c.h1HelperCloser(fn, d, isConn, connAlloc); h != nil {
+				closes = true
+				helpers = append(helpers, helperCloser{h, k, resHere})
+			}
+		}
 		if closes {
 			closers = append(closers, d)
 		}
 	})
+	for _, hc := range helpers {
+		// the error the helper maps must reach the named result of Exchange
+		o := r.Add(rule, where, "clean-up helper "+hc.h.Name()+" hands its error to the named result", c.pos(hc.k.Pos()))
+		if why := h1CleanupResult(c, hc.k, hc.h, hc.res); why == "" {
+			o.OK("%s closes the connection it is handed on every path; its error reaches the named result of Exchange", fnName(hc.h))
+		} else {
+			o.Bad("%s", why)
+		}
+	}
 	if len(closers) == 0 {
 		r.Add(rule, where, "deferred close of the connection", c.pos(fn.Pos())).Bad("Exchange registers no deferred call that closes the connection on every path")
 	}
